@@ -556,12 +556,163 @@ def matchdict_two_keys(col, rng):
                                   % (binder_name, target, ' with outer k' if outer else '', got, want), None)
 
 
+
+# ---------------------------------------------------------------------------
+# Ref: "Ref(name) resolves to the nearest enclosing Ref(name, spec) allowing recursion"
+
+_BARE_REFS = {}     # ONE bare Ref(name) object per name for the whole run: shared by every definition, spec and call
+
+
+def _bare(name):
+    if name not in _BARE_REFS:
+        _BARE_REFS[name] = Ref(name)
+    return _BARE_REFS[name]
+
+
+def gen_ref_tree(rng, depth):
+    return {'v': rng.randint(0, 99), 'kids': [gen_ref_tree(rng, depth - 1) for _ in range(rng.randint(0, 2 if depth > 0 else 0))]}
+
+
+class RefGen:
+    """nodes: ('def', name, body) | ('use', name) | ('val', tag) | ('dict', {key: node}) | ('kids', node) | ('first', node)
+    A use of `name` is generated only where the target has been descended since the nearest definition of that name
+    (most programs then terminate on a finite tree; the reference interpreter detects the others, which are skipped)."""
+    def __init__(self, rng):
+        self.rng = rng
+        self.n = 0
+        self.uses = 0
+        self.defs = 0
+        self.shadow = 0
+
+    def tag(self):
+        self.n += 1
+        return 'r%d' % self.n
+
+    def gen(self, depth, env):
+        """env: {name: descended since its nearest definition}"""
+        rng = self.rng
+        usable = [n for n, d in env.items() if d]
+        r = rng.random()
+        if usable and (depth <= 0 or r < 0.3):
+            self.uses += 1
+            return ('use', rng.choice(usable))
+        if depth <= 0 or r < 0.4:
+            return ('val', self.tag())
+        if r < 0.6:
+            name = rng.choice(['x', 'y'])
+            if name in env:
+                self.shadow += 1
+            self.defs += 1
+            return ('def', name, self.gen(depth - 1, dict(env, **{name: False})))
+        if r < 0.8:
+            return ('dict', {'v': ('path-v',), 't': ('val', self.tag()), 'a': self.gen(depth - 1, env), 'b': self.gen(depth - 1, env)})
+        down = {n: True for n in env}
+        if r < 0.9:
+            return ('kids', self.gen(depth - 1, down))
+        return ('first', self.gen(depth - 1, down))
+
+
+def ref_build(node):
+    k = node[0]
+    if k == 'def':
+        return Ref(node[1], ref_build(node[2]))
+    if k == 'use':
+        return _bare(node[1])
+    if k == 'val':
+        return Val(node[1])
+    if k == 'path-v':
+        return 'v'
+    if k == 'dict':
+        return {key: ref_build(v) for key, v in node[1].items()}
+    if k == 'kids':
+        return ('kids', [ref_build(node[1])])
+    return Coalesce(('kids', T[0], ref_build(node[1])), default='no-kid')
+
+
+class _Diverges(Exception):
+    pass
+
+
+def ref_eval(node, target, env, stats):
+    k = node[0]
+    if k == 'def':
+        return ref_eval(node[2], target, dict(env, **{node[1]: node[2]}), stats)
+    if k == 'use':
+        stats[0] += 1
+        if stats[0] > 400:
+            raise _Diverges()
+        return ref_eval(env[node[1]], target, env, stats)
+    if k == 'val':
+        return node[1]
+    if k == 'path-v':
+        return target['v']
+    if k == 'dict':
+        return {key: ref_eval(v, target, env, stats) for key, v in node[1].items()}
+    if k == 'kids':
+        return [ref_eval(node[1], kid, env, stats) for kid in target['kids']]
+    if not target['kids']:
+        return 'no-kid'
+    return ref_eval(node[1], target['kids'][0], env, stats)
+
+
+def ref_describe(node):
+    k = node[0]
+    if k == 'def':
+        return "Ref(%r, %s)" % (node[1], ref_describe(node[2]))
+    if k == 'use':
+        return "Ref(%r)" % node[1]
+    if k == 'val':
+        return node[1]
+    if k == 'path-v':
+        return "'v'"
+    if k == 'dict':
+        return '{%s}' % ', '.join('%s: %s' % (key, ref_describe(v)) for key, v in node[1].items())
+    return '%s(%s)' % (k, ref_describe(node[1]))
+
+
+def ref_cases(col, rng, n):
+    for _ in range(n):
+        g = RefGen(rng)
+        name = rng.choice(['x', 'y'])
+        node = ('def', name, g.gen(rng.randint(2, 5), {name: False}))
+        target = gen_ref_tree(rng, 3)
+        stats = [0]
+        try:
+            want = ref_eval(node, target, {}, stats)
+        except (_Diverges, RecursionError):
+            # resolution is dynamic (nearest enclosing *evaluation*): two definitions can end up calling each other without
+            # descending the target; such programs do not terminate in glom either and are not run
+            col.count('ref_programs_skipped_as_divergent')
+            continue
+        spec = ref_build(node)
+        before = snapshot(target)
+        for rep in range(2):
+            got = call(G, target, spec)
+            col.case(('ref', g.defs > 0, g.shadow > 0, min(stats[0], 5), rep), stats[0] >= 1)
+            if not got.ok or got.value != want:
+                kind = 'shadowing' if g.shadow else ('sibling-definitions' if g.defs else 'recursion')
+                col.violation('C07/ref-not-resolved-to-nearest-enclosing-definition:' + kind,
+                              '%s on %s (evaluation #%d of the spec object; bare Ref objects are shared by all definitions of a run): '
+                              'glom gave %s, resolving every Ref(name) to the nearest enclosing Ref(name, spec) gives %s'
+                              % (ref_describe(node), short(target, 200), rep + 1, short(got, 400), short(want, 400)),
+                              {'program': ref_describe(node), 'target': target})
+                return
+        col.count('ref_programs')
+        col.count('ref_resolutions_in_reference', stats[0])
+        if g.shadow and stats[0]:
+            col.count('ref_programs_with_shadowing')
+        if snapshot(target) != before:
+            col.violation('C07/ref-target-modified', ref_describe(node), None)
+
+
 def run(ctx):
     col, rng = ctx.col, ctx.rng
     tracer = EvalTracer()
     tracer.install()
     col.require('reader_observations', 1000)
     col.require('frame_observations', 5000)
+    col.require('ref_resolutions_in_reference', 500)
+    col.require('ref_programs_with_shadowing', 50)
     try:
         if ctx.shard == 0:
             systematic(col, rng, tracer)
@@ -569,5 +720,7 @@ def run(ctx):
             matchdict_two_keys(col, rng)
         for i in range(ctx.n(6000, 40000)):
             one_case(col, rng, tracer)
+        tracer.uninstall()
+        ref_cases(col, rng, ctx.n(1500, 10000))
     finally:
         tracer.uninstall()
